@@ -1307,8 +1307,24 @@ impl<'r> Lowerer<'r> {
 
         self.new_block(lbl_condition);
 
-        let examinee = self.expr(condition);
-        let examinee = self.assign_to_var(examinee, TyRef::BOOL);
+        // The condition is evaluated once per iteration, so its temporaries
+        // get their own frame and are dropped every time it has been
+        // evaluated. In the frame of the enclosing block they would only be
+        // dropped once, after the loop.
+        let examinee = self.undropped_tmp();
+        self.stack_slots.push(Vec::new());
+
+        let val = self.expr(condition);
+        self.do_assign(
+            Place::new(examinee.clone(), TyRef::BOOL),
+            TyRef::BOOL,
+            val,
+        );
+
+        let to_drop = self.stack_slots.pop().unwrap();
+        for (var, ty) in to_drop.into_iter().rev() {
+            self.emit_drop(Place::new(var, ty), ty);
+        }
 
         self.emit_switch(examinee, vec![(1, lbl_body)], Some(lbl_cont));
 
